@@ -2409,6 +2409,11 @@ impl RaftNode {
             self.stop_heartbeat_task();
             return;
         }
+        if aer.term < persistent.current_term {
+            // Answer to a request sent in an earlier term of leadership. What the
+            // follower held then says nothing about its log, or ours, now.
+            return;
+        }
 
         let should_advance_commit = {
             let mut leadership = self.leadership.write();
